@@ -45,6 +45,10 @@ func c05RunX(rc *simrt.RunCtx, faults, inject bool) {
 	} else {
 		rf = relayFaults{latMin: time.Millisecond, latMax: time.Duration(2+rc.Pick(30, "relay.latmax")) * time.Millisecond}
 	}
+	// mailbox capacity: the real relay's mailboxes hold only a few messages
+	// and push back on the sender when they are full
+	rf.capMsgs = []int{0, 0, 0, 0, 0, 0, 3, 16}[rc.Pick(8, "relay.k.capacity")]
+	rc.Knob("relay.capacity", rf.capMsgs)
 	rl := newRelay(rc, rf)
 	maxV := []byte{2, 2, 1, 0}[rc.Pick(4, "knob.maxversion")]
 	authSize := []int{0, 40, 400, 3000}[rc.Pick(4, "knob.auth")]
@@ -209,6 +213,13 @@ func c05RunX(rc *simrt.RunCtx, faults, inject bool) {
 			// fails because its send/recv callbacks retry "stream not found"
 			// forever
 			rc.Violate("c05.silent-stall", "client-stuck-on-old-rendezvous", "both sides paired and the server moved to the key-derived rendezvous, but the client's connection on the passphrase-derived one is still open and idle (%s): it never fails, so nothing re-dials", desc(st.C, cc))
+		} else if atThird != nil && *atThird == end && rl.blockedSenders() >= 1 {
+			// recorded finding: with bounded mailboxes a GBN receive loop
+			// blocks sending an ACK into a mailbox that the peer is not
+			// reading (the peer is blocked the same way, or gone); it holds the
+			// connection's send mutex, so the send loop - and with it the
+			// keepalive - is blocked too
+			rc.Violate("c05.silent-stall", "senders-blocked-on-full-mailboxes", "relay reliable since %v (mailbox capacity %d messages); in the last %v nothing happened at all while %d transport send call(s) sit on a full mailbox: a GBN receive loop blocked sending an ACK keeps its connection's send mutex, nobody reads, no keepalive runs, nothing fails. %s; %s", healAt, rf.capMsgs, suffix/3, rl.blockedSenders(), desc(st.S, cs), desc(st.C, cc))
 		} else if atThird != nil && *atThird == end {
 			rc.Violate("c05.silent-stall", "no-activity", "relay reliable since %v; in the last %v nothing happened at all (no bytes moved, no error surfaced, no new Accept/Dial) and no connection opened after the last fault completed its transfer. %s; %s", healAt, suffix/3, desc(st.S, cs), desc(st.C, cc))
 		} else {
